@@ -28,6 +28,7 @@ def parseTok (t : String) : Tok :=
   | "sys" :: "close" :: rest => .sysClose ((kv rest "fd").getD "") ((kv rest "err").getD "")
   | "sys" :: "epoll_ctl" :: m :: rest => .sysCtl m ((kv rest "fd").getD "") ((kv rest "err").getD "")
   | "sys" :: "accept" :: rest => .sysAccept ((kv rest "fd").getD "") ((kv rest "nfd").getD "") ((kv rest "err").getD "")
+  | "sys" :: "dup" :: rest => .sysDup ((kv rest "fd").getD "") ((kv rest "nfd").getD "") ((kv rest "err").getD "")
   | "sys" :: "recvfrom" :: rest =>
     .sysRecvfrom ((kv rest "fd").getD "") (((kv rest "n").bind (·.toInt?)).getD 0) ((kv rest "err").getD "")
       ((kv rest "from").getD "") (bytesOr (kv rest "data"))
